@@ -16,7 +16,7 @@ ASSUMPTIONS = ["scipy.linalg.expm closed form of the linear rate equations is th
                "reference log-priors from vlib/ref.py (C16)"]
 RUN_OPTS = {"batch_size": 5, "timeout_per_case": 120.0}
 MINIMA = {"*": {"cost_evaluations": 300, "contract_evaluations": 300, "ll_data_entries": 1000, "permutation_pairs": 100, "history_pairs": 100,
-                "out_of_support_thetas": 20, "emcee_evaluations": 40, "differing_key_cases": 3, "reconfigured_evaluations": 40, "stochastic_cost_evaluations": 20}}
+                "out_of_support_thetas": 20, "emcee_evaluations": 40, "differing_key_cases": 3, "reconfigured_evaluations": 40, "stochastic_cost_evaluations": 20, "square_time_arrays": 2}}
 
 ALLP = ["kp", "k1", "k2", "d", "da"]
 
@@ -355,11 +355,15 @@ def run_case(case):
             sconds[0] = sconds[0] or {"pb": 2.5}
             sconds[r2.randrange(1, case["N"])] = {}           # an empty condition after a non-empty one
         fr, ics = [], []
+        # every third stochastic case uses as many time points as trajectories (a square N x T time array)
+        Ts = case["N"] if (case["N"] > 1 and case["seed"] % 3 == 0) else case["T"]
+        if Ts == case["N"]:
+            C["square_time_arrays"] += 1
         for n in range(case["N"]):
-            tp = np.array(case["grids"][n])
+            tp = np.array(case["grids"][n])[:Ts]
             cols = {"time": tp}
             for m in case["meas"]:
-                cols[m] = np.array([case["noise"][n][t][case["meas"].index(m)] for t in range(case["T"])]) + 3.0
+                cols[m] = np.array([case["noise"][n][t][case["meas"].index(m)] for t in range(Ts)]) + 3.0
             fr.append(pd.DataFrame(cols))
             ics.append({"Z": 0, "W": float(n + 2)})
         multi = case["N"] > 1
@@ -367,7 +371,13 @@ def run_case(case):
                     prior={"k1": ["uniform", 0.0, 10.0]}, initial_conditions=ics if multi else ics[0], norm_order=case["norm"],
                     sim_type="stochastic", N_simulations=1)
         kw_s["parameter_conditions"] = [dict(c_) for c_ in sconds] if multi else dict(sconds[0])
-        infs = InferenceSetup(**kw_s)
+        try:
+            infs = InferenceSetup(**kw_s)
+            infs.cost_function(np.array([1.0]))
+        except Exception as e:
+            bad("stochastic-cost-raises" + (":square-time-array" if Ts == case["N"] else ""),
+                "stochastic InferenceSetup / cost_function raised %r for N=%d trajectories with %d time points each" % (e, case["N"], Ts))
+            infs = None
         tot = 0.0
         for n in range(case["N"]):
             pn = dict(dflt)
@@ -376,7 +386,7 @@ def run_case(case):
             for m in case["meas"]:
                 tot += float(np.sum(np.abs(np.array(fr[n][m]) - const[m]) ** case["norm"]))
         exp = math.log(1 / 10.0) - tot ** (1.0 / case["norm"])
-        for th_ in (1.5, 0.5, 1.5):
+        for th_ in ((1.5, 0.5, 1.5) if infs is not None else ()):
             v = float(infs.cost_function(np.array([th_])))
             C["stochastic_cost_evaluations"] += 1
             if not abs(v - exp) <= 1e-9 * (1 + abs(exp)):
